@@ -26,15 +26,17 @@ import (
 func init() { register("C18", runC18) }
 
 type c18case struct {
-	Kind string `json:"kind"`  // "lex" | "parse-error" | "runtime-error" | "tables"
-	Hex  string `json:"hex"`   // the source text, hexadecimal (it need not be valid UTF-8)
-	Text string `json:"text"`  // the same, Go-quoted, for the reader
-	Off  int    `json:"off"`   // planted byte offset (error kinds)
-	From string `json:"from"`  // generator
+	Kind  string `json:"kind"`           // "lex" | "parse-error" | "runtime-error" | "tables"
+	Hex   string `json:"hex"`            // the source text, hexadecimal (it need not be valid UTF-8)
+	Text  string `json:"text"`           // the same, Go-quoted, for the reader
+	Off   int    `json:"off"`            // planted byte offset (error kinds)
+	From  string `json:"from"`           // generator
+	Hex2  string `json:"hex2,omitempty"` // kind "separation": the same program without the comments
+	Text2 string `json:"text2,omitempty"`
 }
 
 func c18mk(kind, src, from string, off int) c18case {
-	return c18case{kind, hex.EncodeToString([]byte(src)), fmt.Sprintf("%q", src), off, from}
+	return c18case{Kind: kind, Hex: hex.EncodeToString([]byte(src)), Text: fmt.Sprintf("%q", src), Off: off, From: from}
 }
 
 func c18hx(s string) string { return "(hx \"" + hex.EncodeToString([]byte(s)) + "\")" }
@@ -288,6 +290,124 @@ func c18runtime(c *Ctx, e *util.RuntimeError, src string, off, wl, wc int, desc 
 	}
 }
 
+// ---- statement separation is unaffected by comments (Go side only)
+
+// c18shape is the AST without positions and meta data: names, token values, arity.
+func c18shape(n *parser.ASTNode) string {
+	if n == nil {
+		return "<nil>"
+	}
+	var sb strings.Builder
+	sb.WriteString(n.Name)
+	if n.Token != nil {
+		fmt.Fprintf(&sb, "%q", n.Token.Val)
+	}
+	fmt.Fprintf(&sb, "/%d(", len(n.Children))
+	for _, ch := range n.Children {
+		sb.WriteString(c18shape(ch))
+		sb.WriteString(",")
+	}
+	sb.WriteString(")")
+	return sb.String()
+}
+
+func c18parseShape(src string) (string, bool) {
+	r := guarded(3*time.Second, func() (interface{}, error) { return parser.Parse("c18", src) })
+	if r.TimedOut || r.Panicked {
+		return "", false // totality is C07's business
+	}
+	if r.Err != nil {
+		if pe, ok := r.Err.(*parser.Error); ok {
+			return "ERROR:" + pe.Type.Error(), true // the class, not position or detail
+		}
+		return "ERROR", true
+	}
+	ast, _ := r.Val.(*parser.ASTNode)
+	return c18shape(ast), true
+}
+
+// c18separation: the program with comments must parse to the same tree as the program in
+// which every comment is replaced by nothing (a # comment: removed, its newline kept; a
+// block comment: replaced by the newlines it contains).
+func c18separation(c *Ctx, with, without, from string) {
+	desc := c18mk("separation", with, from, 0)
+	desc.Hex2 = hex.EncodeToString([]byte(without))
+	desc.Text2 = fmt.Sprintf("%q", without)
+	a, ok1 := c18parseShape(with)
+	b, ok2 := c18parseShape(without)
+	c.Count("sep"+desc.Hex, true, desc)
+	c.Dist["separation_programs"]++
+	if !ok1 || !ok2 {
+		c.Dist["separation_not_returned"]++
+		return
+	}
+	if strings.HasPrefix(b, "ERROR") {
+		c.Dist["separation_plain_program_is_an_error"]++
+	}
+	if a != b {
+		c.Violate("comment-changes-statement-separation", "the program with comments parses differently from the same program with every comment replaced by nothing: "+c18clip(a)+" vs "+c18clip(b), desc)
+	}
+}
+
+func c18clip(s string) string {
+	if len(s) > 300 {
+		return s[:300] + "..."
+	}
+	return s
+}
+
+// statement lines; {: opens a block (the generator closes it)
+var c18lines = []string{
+	"a := 1", "b := a + 2", "c := foo", "d := a", "foo(a)", "x := [1, 2]", "return", "return a", "return a + 1", "return -a",
+	"-a", "not a", "[1, 2]", "(a)", "[0]", "(1)", "a", "a.b", "a[0]", "foo", "m := {1 : 2}", "b := a -", "s := \"x\"", "s := r\"l1\nl2\"",
+	"if a {", "if a == 1 {", "for a > 0 {", "for x in [1, 2] {", "func f() {", "g := func (p) {", "try {", "mutex m {",
+}
+
+// a comment is only recognised at a token start, so every comment is preceded by a blank or a newline
+var c18seps = []struct{ with, without string }{
+	{"\n", "\n"}, {"\n", "\n"}, {" # c\n", "\n"}, {" # return a\n", "\n"}, {" #\n", " \n"}, {" # c\\\n", "\n"},
+	{" /* c */\n", " \n"}, {" /* c\n c */ ", " \n "}, {" /*\n*/", " \n"}, {" /* c */ # d\n", "  \n"}, {"\n# c\n", "\n\n"}, {"\n/* c\n*/\n", "\n\n\n"},
+	{" /* a */ /* b\n\n */ ", "   \n\n "},
+}
+
+func c18program(c *Ctx, n int) (string, string) {
+	var w, wo strings.Builder
+	depth := 0
+	sep := func() {
+		sp := c18seps[c.Rng.Intn(len(c18seps))]
+		w.WriteString(sp.with)
+		wo.WriteString(sp.without)
+	}
+	emit := func(line string) {
+		ind := strings.Repeat("  ", depth)
+		w.WriteString(ind + line)
+		wo.WriteString(ind + line)
+		sep()
+	}
+	for i := 0; i < n; i++ {
+		if depth > 0 && c.Rng.Intn(4) == 0 {
+			depth--
+			if c.Rng.Intn(3) == 0 {
+				emit("} else {")
+				depth++
+			} else {
+				emit("}")
+			}
+			continue
+		}
+		line := c18lines[c.Rng.Intn(len(c18lines))]
+		emit(line)
+		if strings.HasSuffix(line, "{") {
+			depth++
+		}
+	}
+	for depth > 0 {
+		depth--
+		emit("}")
+	}
+	return w.String(), wo.String()
+}
+
 // ---- generators
 
 var c18alphabet = []string{"a", "1", "e", "+", ".", " ", "\n", "#", "/", "*", "\"", "'", "r", "\\"}
@@ -300,6 +420,7 @@ var c18fragments = []string{
 	// strings
 	"\"s\"", "'s'", "\"a b\"", "\"a\\nb\"", "\"a\\\"b\"", "'a\"b'", "\"a\\\\\"", "\"\\x41\\u00e9\\t\"", "\"\\q\"", "\"a\nb\"", "'a\nb'",
 	"r\"raw\"", "r'raw'", "r\"l1\nl2\"", "r\"l1\n\nl3\n\"", "r'a\n  b'", "r\"a\\\"", "r\"a\r\nb\"", "\"unclosed", "r\"unclosed\n",
+	"r\"a\\\nb\"", "r'a\\\n\\\n'", "r\"a\n\\\"", "r\"a\r\n#b\n/*\"", "\"a\\\nb\"", "# c\\\n", "/* c\\\n */", "/* c \\*/",
 	// comments
 	"# c\n", "#\n", "# c # d\n", "#c", "# c\r\n", "/* c */", "/**/", "/* l1\nl2 */", "/*\n\n*/", "/* a * / b **/", "/* unclosed\n", "/*/",
 	// white space
@@ -349,7 +470,7 @@ func c18prefix(c *Ctx, n int) string {
 }
 
 func runC18(c *Ctx) error {
-	c.Rule = "source texts: a fixed corpus of tricky inputs (the witness of the repaired defect first), every byte string over the alphabet {a 1 e + . space LF # / * \" ' r \\} (quick tier: without . and ') up to length 3 (thorough: 4), seeded random interleavings of fragments (identifiers, keywords, numbers incl. 1e5 1e+5 1.5.2 1e+999, symbols, quoted/raw strings with embedded newlines and escapes, closed and unclosed # and /* */ comments, CR/LF, tabs, control and Unicode space characters, 2-4 byte characters, invalid UTF-8), separated by a blank (4/6), a newline (1/6) or nothing (1/6); all fields of all tokens compared; non-trivial = tokens on more than one line and at least one comment or string token; planted errors: a ')' (parser) or an unknown function call (runtime) after a random prefix of statements, comments and multi-line strings, Line/Pos against the line/column of the planted offset"
+	c.Rule = "source texts: a fixed corpus of tricky inputs (the witness of the repaired defect first), every byte string over the alphabet {a 1 e + . space LF # / * \" ' r \\} (quick tier: without . and ') up to length 3 (thorough: 4), seeded random interleavings of fragments (identifiers, keywords, numbers incl. 1e5 1e+5 1.5.2 1e+999, symbols, quoted/raw strings with embedded newlines and escapes, closed and unclosed # and /* */ comments, CR/LF, tabs, control and Unicode space characters, 2-4 byte characters, invalid UTF-8), separated by a blank (4/6), a newline (1/6) or nothing (1/6); all fields of all tokens compared; non-trivial = tokens on more than one line and at least one comment or string token; programs built from statement lines (assignments, bare and valued return, prefix operators, bracket / parenthesis at line start, blocks) with # and /* */ comments at line ends and multi-line block comments in place of newlines, AST shape compared with the same program without the comments; planted errors: a ')' (parser) or an unknown function call (runtime) after a random prefix of statements, comments and multi-line strings, Line/Pos against the line/column of the planted offset"
 	c.BeginCases("From Coq Require Import ZArith String.\nFrom Ecal Require Import Common.Bytes Common.Hex Model.Lexer Run.RunC18.", "case", 400)
 
 	if c.Replay != "" {
@@ -368,6 +489,12 @@ func runC18(c *Ctx) error {
 			c18planted(c, string(b[:d.Off]), false, d.From)
 		case "runtime-error":
 			c18planted(c, string(b[:d.Off]), true, d.From)
+		case "separation":
+			b2, err := hex.DecodeString(d.Hex2)
+			if err != nil {
+				return err
+			}
+			c18separation(c, string(b), string(b2), d.From)
 		default:
 			c18tables(c)
 		}
@@ -386,8 +513,31 @@ func runC18(c *Ctx) error {
 		"1e+5 1e5 1.5.2 1e+999 1. 1.e+5 1e+5e+3 00 1e+\u0663", "İn breaK aK éa a中 😀", "a:=b//c!=d>=e<=f==g", "a!b", "x := r\"a\\\" # c\ny",
 		"'a\"b' \"\\'\" '\\'' \"\\x41\\101\\u00e9\\U0001F600\" \"\\xff\" \"\xff\" \"\\ud800\"", "if a { # c\n  b /* d\n */ c\n}\n",
 	}
+	// every string form with each of these bytes directly before / after an embedded newline,
+	// and comments ending in them; a token on a later line follows
+	for _, b := range []string{"\\", "\"", "'", "\r", "\t", "#", "/", "*", "{"} {
+		for _, form := range [][2]string{{"r\"", "\""}, {"r'", "'"}, {"\"", "\""}, {"'", "'"}, {"/*", "*/"}} {
+			if b == "\"" && form[1] == "\"" || b == "'" && form[1] == "'" {
+				continue
+			}
+			corpus = append(corpus, form[0]+"a"+b+"\nb"+form[1]+" x\n  y", form[0]+"a\n"+b+"b"+form[1]+" x\n  y",
+				form[0]+"a"+b+"\n"+b+"\n"+form[1]+"\nx y")
+		}
+		corpus = append(corpus, "a # c"+b+"\n  x\ny", "#"+b+"\nx")
+	}
+	corpus = append(corpus, "r\"a\\\n\\\nb\" x\ny", "r'\\\n' x", "x := r\"l1\\\nl2\"\nreturn x", "/* a\\\n*/ x", "/* a *\\/\n */ x")
 	for _, s := range corpus {
 		c18lex(c, s, "corpus")
+	}
+	for _, p := range [][2]string{
+		{"func f() {\n  return # Done\n  a := 1\n}\n", "func f() {\n  return \n  a := 1\n}\n"},
+		{"func f() {\n  return # c\n}\n", "func f() {\n  return \n}\n"},
+		{"func f() {\n  return /* c\n */ a\n}\n", "func f() {\n  return \n a\n}\n"},
+		{"b := a # c\n[0]\n", "b := a \n[0]\n"},
+		{"c := foo /* c\n */ (1)\n", "c := foo \n (1)\n"},
+		{"a := 1 # c\n-a\n", "a := 1 \n-a\n"},
+	} {
+		c18separation(c, p[0], p[1], "corpus")
 	}
 	c18planted(c, "a := 1 # c\n  ", false, "corpus")
 	c18planted(c, "a := 1 # c\n  ", true, "corpus")
@@ -436,6 +586,11 @@ func runC18(c *Ctx) error {
 			b[k] = soup[c.Rng.Intn(len(soup))]
 		}
 		c18lex(c, string(b), "soup")
+	}
+	// statement separation with and without comments
+	for i := 0; i < c.Pick(600, 8000) && !c.Enough(); i++ {
+		w, wo := c18program(c, 2+c.Rng.Intn(9))
+		c18separation(c, w, wo, "random")
 	}
 	// planted errors
 	for i := 0; i < c.Pick(300, 3000) && !c.Enough(); i++ {
